@@ -114,7 +114,7 @@ def concrete_search(qn, c: S.Contract, pid, rng, budget, want=None, collect_path
                 return n, v, saved, mism
             same = (rres == res) or (rres is None)
             for k, a in inp.items():
-                if isinstance(a, np.ndarray) and k in c.modifies and not np.array_equal(a, real_in[k]):
+                if isinstance(a, np.ndarray) and k in c.modifies and k in c.params and not np.array_equal(a, real_in[k]):
                     same = False
             if not same:
                 mism += 1
